@@ -770,6 +770,52 @@ func checkC09(c *Check) {
 		}
 	}
 
+	// ---- K10: the table maps the address a target was given straight to the address the caller gave. One step undoes
+	// all rewrites; a second look-up with the translated address lands in the entry of ANOTHER recipient of the same
+	// transaction (alias chains: postmaster→admin, admin→alice, both addressed) and files the result under the wrong key.
+	c.Rule("K10", "the pipeline's translating collector translates a result key in one step: every look-up in its table is keyed by the address SetStatus was called with, never by an address it has already translated", 1)
+	if r := c.need("K10", pipelineRel, "statusCollector", "SetStatus"); r != nil {
+		info := r.Info
+		var prm types.Object
+		if sig, ok := r.FI.Obj.Type().(*types.Signature); ok && sig.Params().Len() >= 1 {
+			prm = sig.Params().At(0)
+		}
+		nLook := 0
+		msg := ""
+		for _, pt := range r.F.Points() {
+			if pt.Node() == nil {
+				continue
+			}
+			ast.Inspect(pt.Node(), func(x ast.Node) bool {
+				if _, isLit := x.(*ast.FuncLit); isLit {
+					return false
+				}
+				ix, ok := x.(*ast.IndexExpr)
+				if !ok {
+					return true
+				}
+				if _, isMap := info.TypeOf(ix.X).Underlying().(*types.Map); !isMap || fieldOf(info, ix.X) == nil {
+					return true
+				}
+				nLook++
+				k := objOf(info, ix.Index)
+				if k == nil {
+					msg = "the table is read with a computed key (" + exprStr(ix.Index) + ")"
+					return true
+				}
+				defs, ok := r.ReachingDefs(k, pt, nil)
+				if k != prm || !ok || len(defs) > 0 {
+					msg = "line " + itoa(c.P.Fset.Position(ix.Pos()).Line) + ": the table is read with a key that can already be a translated address (" + exprStr(ix.Index) + " is assigned before the look-up): a second step through the table ends in another recipient's entry – that recipient's result is filed under the wrong address and its own address gets none (the caller takes it for delivered)"
+				}
+				return true
+			})
+		}
+		if nLook == 0 {
+			msg = "undecided: no table look-up in the collector"
+		}
+		c.Hold("K10", "statusCollector.SetStatus:single-step", r.FI.Decl.Pos(), msg == "", msg)
+	}
+
 	// ---- K8: the consumer of the keys. The queue reads per-recipient results back under the strings it passed to
 	// AddRcpt; its own collector must file them under the key it is called with (C10.R6).
 	c.Rule("K8", "the queue's result collector (partialError.SetStatus) files a failure under exactly the key it was called with (C10.R6)", 1)
